@@ -216,6 +216,10 @@ def run_shapes(W, cfg):
                 W.ob(f'mirror (columns) [{i},{j}]', z[i, j2], z[i, j])
             if 0 <= i2 < shp[0]:
                 W.ob(f'mirror (rows) [{i},{j}]', z[i2, j], z[i, j])
+    # drawn once more with the first arguments, after the other drawings of this configuration: the same samples
+    m3 = _draw(lt, kind, shp, size, s, aa)
+    for (i, j) in probe:
+        W.ob(f'drawn again [{i},{j}]', m3[i, j], m[i, j])
 
 
 # ------------------------------------------------------------------ hex segments
